@@ -212,7 +212,7 @@ REPORTED = {"C01": ["production_realised", "overproduction", "final_demand_unmet
 # per-run oracles, construction obligations, paired-run oracles (names resolved in harness/runner.py)
 RUN_ORACLES = {"C01": ["c01"], "C05": ["c05_run"], "C20": ["c05_run_c20"], "C07": ["c07_capital"], "C08": ["c08_init"], "C11": ["c11_run"]}
 INIT_OBLIGATIONS = {"C01": ["mkparams"], "C02": ["mkparams"], "C03": ["mkparams"], "C06": ["mkparams"], "C07": ["mkparams", "trackerinit"], "C08": ["trackerinit"], "C13": ["trackerinit"], "C18": ["mkparams"]}
-PAIRED = {"C01": ["long_loop_c01", "table_reuse"], "C05": ["c05_loop", "long_loop_c05", "numeric_labels"], "C10": ["c10_prefix", "long_loop", "c11_order_c10", "copy_midrun", "pure_manual"], "C08": ["event_reuse", "copy_midrun_c08"],
+PAIRED = {"C01": ["long_loop_c01", "table_reuse"], "C05": ["c05_loop", "long_loop_c05", "numeric_labels"], "C10": ["c10_prefix", "long_loop", "c11_order_c10", "copy_midrun", "pure_manual", "subclass_events"], "C08": ["event_reuse", "copy_midrun_c08"],
           "C09": ["event_reuse_c09", "copy_midrun_c09", "pure_manual_c09", "c11_order_c09"], "C14": ["c19_periodic_c14", "pure_manual_c14"], "C02": ["copy_midrun_c02", "pure_manual_c02"], "C04": ["copy_midrun_c04", "fd_rescale"], "C06": ["copy_midrun_c06"], "C20": ["c05_loop_c20"], "C11": ["c11_order", "long_loop_c11", "event_reuse_c11", "copy_midrun_c11"], "C13": ["c13_units", "long_loop_c13"], "C18": ["c18_variants", "c18_orders"],
           "C19": ["c19_shift", "c19_late", "c19_periodic", "pure_manual_c19"], "C17": ["c17_determinism"]}
 
